@@ -3,7 +3,7 @@ Model: lean/RedisGoModel/Exec/List.lean (+ Ds/ListOps.lean); theorems: Props/C09
 VerifDump hook, whose list rendering checks forward walk = reverse of backward walk and both = Len)."""
 import random
 
-from .. import core, execgen_list, execsuite, families
+from .. import core, execgen_list, execsuite, families, concsuite
 
 
 def run(R, ctx):
@@ -19,6 +19,11 @@ def run(R, ctx):
              "values from three letters and the empty string, indexes and counts across both ends and at the int64 extremes, keys of other "
              "types (SET), long and already-passed deadlines (EXPIRE), DEL/TYPE/TTL/EXISTS in between; refused-command scenarios followed by a full dump (a refused command changes nothing)")
 
+    rule = R.rule
+    concsuite.run_conc(R, ctx, "list-bigread", ['bigread'], (2, 12), race=False)
+    R.rule = rule + " Concurrent scenario(s) bigread of the conc engine (see C05): the family's containers under concurrent clients, verdict by invariants that need no history search."
 
 def replay(R, payload):
+    if payload.get("engine") == "conc":
+        return concsuite.replay_conc(R, payload)
     return core.generic_replay(R, payload)
